@@ -10,7 +10,7 @@ import itertools
 import pyrtl
 from pyrtl import Input, Output, Const, Register
 from pyrtl.memory import RomBlock
-from vlib import gen, simrun
+from vlib import gen, simrun, memsynth
 from vlib.common import proof_gate, conclude
 from vlib.serialize import Ser
 
@@ -308,6 +308,8 @@ def main(ctx):
         ctx.sample({'design': desc, 'cycles': len(steps), 'agree': ok})
         if len(ctx.violations) >= 6:
             break
+    if len(ctx.violations) < 6:
+        memsynth.several_memories(ctx, ctx.n(8, 60), same_name=True)
     ctx.oblige('oracle:Spec(synthesize(b))=Spec(b) on Outputs, both merge settings', not ctx.violations,
                '%d/%d designs agree' % (agree, n))
     return conclude(ctx, rule='random designs (every word-level op, registers with reset values, memories, ROMs) x '
